@@ -76,3 +76,67 @@ Proof.
       rewrite contains_memZ, set_remove_hs_remove. rewrite andb_false_r.
       destruct (Jobs.memZ p pids); apply IH.
 Qed.
+
+(** ---------- [r_consumed], and the error answers of WaitFg (kind 255) *)
+Ltac wf_simp :=
+  cbn [WaitFg.wait_loop Jobs.wait_loop Jobs.ev_pid Jobs.is_cont Jobs.ev_status map app enc];
+  unfold WaitFg.is_error, WaitFg.is_exited, WaitFg.is_stopped, WaitFg.is_continued, WaitFg.is_signaled,
+    WaitFg.get_status, WaitFg.is_exited, WaitFg.get_signaled_status, WaitFg.ws_kind, WaitFg.ws_pid, WaitFg.ws_val;
+  cbn [fst snd Z.eqb Pos.eqb andb negb];
+  rewrite ?contains_memZ, ?set_insert_hs_add, ?set_remove_hs_remove, ?andb_false_r.
+
+(** statuses consumed + statuses left = statuses delivered *)
+Lemma waitfg_consumed : forall pids pl cc gid,
+  forall evs s status status2 settled consumed side,
+  (WaitFg.r_consumed (WaitFg.wait_loop pids pl cc (map enc evs) status settled consumed side) +
+   length (Jobs.w_left (Jobs.wait_loop evs s gid pids pl cc settled status2)) = consumed + length evs)%nat.
+Proof.
+  intros pids pl cc gid. induction evs as [|e evs IH]; intros s status status2 settled consumed side.
+  - cbn. lia.
+  - destruct e as [p x|p x|p x|p]; wf_simp.
+    + destruct (negb (p =? 0)); cbn [andb]; destruct (Jobs.memZ p pids); cbn [andb];
+        (destruct (Nat.leb cc _); [cbn; lia|rewrite IH; cbn [length]; lia]).
+    + destruct (Jobs.memZ p pids); cbn [andb];
+        (destruct (Nat.leb cc _); [cbn; lia|rewrite IH; cbn [length]; lia]).
+    + destruct (Jobs.memZ p pids); cbn [andb];
+        (destruct (Nat.leb cc _); [cbn; lia|rewrite IH; cbn [length]; lia]).
+    + destruct (Jobs.memZ p pids); rewrite IH; cbn [length]; lia.
+Qed.
+
+(** an error answer (kind 255, errno [v]) after statuses on which C06's loop is still
+    blocked: WaitFg's loop breaks there; ECHILD keeps the status C06's loop has, any
+    other errno becomes the status; the error is consumed, the rest is left *)
+Lemma waitfg_error_after_blocked : forall pids pl cc gid, ~ In 0 pids ->
+  forall evs s status settled consumed side p v post,
+  Jobs.w_blocked (Jobs.wait_loop evs s gid pids pl cc settled status) = true ->
+  let r := WaitFg.wait_loop pids pl cc (map enc evs ++ (p, 255, v) :: post) status settled consumed side in
+  WaitFg.r_status r =
+    (if v =? WaitFg.ECHILD then Jobs.w_status (Jobs.wait_loop evs s gid pids pl cc settled status) else v) /\
+  WaitFg.r_left r = post /\ WaitFg.r_consumed r = (consumed + S (length evs))%nat.
+Proof.
+  intros pids pl cc gid H0. induction evs as [|e evs IH]; intros s status settled consumed side p v post.
+  - intros _. cbn [map app WaitFg.wait_loop]. unfold WaitFg.is_error, WaitFg.ws_kind, WaitFg.ws_val.
+    cbn [fst snd Z.eqb Pos.eqb Jobs.wait_loop Jobs.w_status length].
+    destruct (v =? WaitFg.ECHILD); cbn; repeat split; lia.
+  - destruct e as [q x|q x|q x|q]; wf_simp.
+    + destruct (Z.eqb_spec q 0) as [E|E]; cbn [negb andb].
+      * subst q. rewrite (memZ_0 pids H0). cbn [andb].
+        destruct (cc <=? length settled)%nat; [intros B; discriminate B|].
+        intros B. cbn zeta. rewrite (proj1 (IH _ _ _ _ _ p v post B)), (proj1 (proj2 (IH _ _ _ _ _ p v post B))),
+          (proj2 (proj2 (IH _ _ _ _ _ p v post B))). cbn [length]. repeat split; lia.
+      * destruct (Jobs.memZ q pids); cbn [andb];
+          (destruct (Nat.leb cc _); [intros B; discriminate B|]);
+          intros B; cbn zeta; rewrite (proj1 (IH _ _ _ _ _ p v post B)), (proj1 (proj2 (IH _ _ _ _ _ p v post B))),
+            (proj2 (proj2 (IH _ _ _ _ _ p v post B))); cbn [length]; repeat split; lia.
+    + destruct (Jobs.memZ q pids); cbn [andb];
+        (destruct (Nat.leb cc _); [intros B; discriminate B|]);
+        intros B; cbn zeta; rewrite (proj1 (IH _ _ _ _ _ p v post B)), (proj1 (proj2 (IH _ _ _ _ _ p v post B))),
+          (proj2 (proj2 (IH _ _ _ _ _ p v post B))); cbn [length]; repeat split; lia.
+    + destruct (Jobs.memZ q pids); cbn [andb];
+        (destruct (Nat.leb cc _); [intros B; discriminate B|]);
+        intros B; cbn zeta; rewrite (proj1 (IH _ _ _ _ _ p v post B)), (proj1 (proj2 (IH _ _ _ _ _ p v post B))),
+          (proj2 (proj2 (IH _ _ _ _ _ p v post B))); cbn [length]; repeat split; lia.
+    + destruct (Jobs.memZ q pids);
+        intros B; cbn zeta; rewrite (proj1 (IH _ _ _ _ _ p v post B)), (proj1 (proj2 (IH _ _ _ _ _ p v post B))),
+          (proj2 (proj2 (IH _ _ _ _ _ p v post B))); cbn [length]; repeat split; lia.
+Qed.
